@@ -12,7 +12,7 @@ LITS = ["blue", "b", "Blue", "BLUE", "light-blue", "Light Blue", "r", "red", "RE
         "dotlessı", "semi;colon", "quo\"te", "back\\slash", "tab\there", "new\nline", "\U0001F600", "x_y", "X-Y",
         "fin", "ﬁn", "zero​width", "purp", "black", "white", "bla", "Zq", "camelCase", "snake_case"]
 FIELD_NAMES = ["f", "s", "x", "v", "val", "value", "idx", "func", "field0", "discriminant", "phf", "name", "n"]
-PLAIN_TYPES = ["u8", "i32", "bool", "String", "opt"]
+PLAIN_TYPES = ["u8", "i32", "bool", "String", "opt", "tricky"]
 
 
 def rand_fields(rng, kind, n, generics):
@@ -156,6 +156,10 @@ def dictionary(start_id):
     add([variant("Before"), variant("Exact", aci=0), variant("After"), variant("Last", ser=["last"])], aci=True)
     # to_string next to serialize: both are spellings
     add([variant("Blue", "named", [field("u8", "hue")], ser=["b"], ts="blue"), variant("Red", ts="rouge"), variant("Cafe", ser=["caf\u00e9"], aci=1)])
+    # two spellings of one variant that differ only in case, under every combination of the enum-level and variant-level flag
+    for eaci in (False, True):
+        add([variant("Fmt", ser=["json"], ts="JSON", aci=0), variant("Other", ser=["yaml"], ts="YAML"), variant("Third", ser=["toml"], ts="TOML", aci=1),
+             variant("Plain", ser=["ini", "INI."])], aci=eaci)
     # empty enum, single variant
     add([])
     add([variant("Only")])
@@ -167,7 +171,7 @@ def dictionary(start_id):
 
 def exhaustive_small(start_id, rng, limit):
     """1..2 variants x kinds x spelling sources x flags: small shapes, complete up to `limit` (sampled beyond)"""
-    sercfgs = [([], None), (["a"], None), (["ab", "a"], None), ([], "t"), (["a"], "T"), (["K"], None), (["A"], None)]
+    sercfgs = [([], None), (["a"], None), (["ab", "a"], None), ([], "t"), (["a"], "T"), (["K"], None), (["A"], None), (["t"], "T")]
     flags = ["", "dis", "def", "disdef"]        # "disdef": a variant that is both default and disabled is simply disabled
     acis = [2, 1, 0]
     kinds = ["unit", "tuple1", "named1", "tuple2"]
